@@ -130,13 +130,7 @@ pub fn short(m: &SMsg) -> SMsg {
 
 fn run_tape(_part: &str, tape: &[u8], cx: &mut Cx) -> Res {
     let mut t = Tape::new(tape);
-    if t.chance(20) {
-        let k = t.below(4);
-        let c = gen_control_k(&mut t, k);
-        let _ = crate_encode_msg(&c);
-        let _ = crate_decode(&encode_message(&c), STRICT);
-        cx.class("a control message was encoded and decoded on the same thread just before");
-    }
+    crate::props::history::prior_ops(&mut t, cx, true);
     check(&gen_data(&mut t), cx)
 }
 
